@@ -747,6 +747,14 @@ def rule_subsecond(ck):
                'origin time is decoded to the whole second below' % sorted(written))
     else:
         o.ok('components: %s' % sorted(written))
+    # the two readers whose formats write seconds as 60.0 decode their times through the helper that knows about it
+    for rq in ('csep.utils.readers.ndk', 'csep.utils.readers.ingv_emrcmt'):
+        rf = P.func(rq)
+        scope = [rf] + [x for x in P.funcs.values() if x.parent is rf] + ([x for x in _ndk_scope(P)] if rq.endswith('.ndk') else [])
+        used = any(calls_in(P, x, h.qualname) for x in scope)
+        oo = ck.ob('C19-D4.viahelper', rf, 'the record time goes through %s' % h.short, rf.node)
+        (oo.ok() if used else oo.fail('%s no longer decodes its time through %s, the only place that turns seconds written as 60.0 into the next '
+                                       'minute: such records are dropped or rejected' % (rf.short, h.short)))
     for f in P.funcs.values():
         if f.module.name != 'csep.utils.readers' or f is h:
             continue
